@@ -205,7 +205,7 @@ REBUILT = [":020000040000FA\n", ":03001000A1B2C3D7\n", ":00000001FF\n"]
 REBUILT_IMAGE = bytes([0xA1, 0xB2, 0xC3])
 
 
-def hexfile(max_records):
+def hexfile(max_records, span=SPAN, extra_kinds=()):
     def fn(w):
         import array as array_mod
         import intelhex.compat as compat
@@ -217,14 +217,14 @@ def hexfile(max_records):
         kinds = []
         for r in range(nrec):
             kind = w.pick(["data1", "data2", "data0", "ext-segment", "ext-linear", "start-linear",
-                           "start-segment"], f"r{r}.kind")
+                           "start-segment"] + list(extra_kinds), f"r{r}.kind")
             kinds.append(kind)
             if kind.startswith("data"):
                 n = int(kind[4:])
                 line, addr, data = record(w, f"r{r}", "data", n)
                 # addresses are kept inside a small window so that the output loop is bounded
-                w.assume(w.lt(addr, SPAN))
-                R.data_record(mem, base, concrete(w, addr, SPAN), data)
+                w.assume(w.lt(addr, span))
+                R.data_record(mem, base, concrete(w, addr, span), data)
             elif kind == "ext-segment":
                 line, _, data = record(w, f"r{r}", kind, 2)
                 w.assume(w.lt(be(w, data), 2))
@@ -249,7 +249,7 @@ def hexfile(max_records):
         # the format's meaning of the file (oracle)
         want = R.image(mem)
         overlap = want == "overlap"
-        if not overlap and want is not None and len(want) > 2 * SPAN:
+        if not overlap and want is not None and len(want) > 2 * span:
             w.cut("data on both sides of a 64 KiB base change (output loop beyond the bound)")
         opened = []
 
@@ -311,14 +311,16 @@ def as_items(w, v):
 
 def harnesses(tier):
     q = tier == "quick"
-    n = 2 if q else 3
-    return [Harness("intel-hex", hexfile(n),
+    n = 2
+    span = SPAN if q else 24
+    return [Harness("intel-hex", hexfile(n, span, () if q else ("data3",)),
                     {"records_before_eof": f"1..{n}",
-                     "record_kinds": ["data (0/1/2 bytes)", "extended segment address",
+                     "record_kinds": ["data (0/1/2 bytes)" if q else "data (0/1/2/3 bytes)",
+                                      "extended segment address",
                                       "extended linear address", "start linear address",
                                       "start segment address", "EOF", "blank / junk after EOF"],
                      "content": "every hex digit symbolic (either case); addresses < %d, "
-                                "segment / linear base word < 2" % SPAN,
+                                "segment / linear base word < 2" % span,
                      "line_ends": ["LF", "CRLF"]},
                     goals=["loaded", "no-data", "overlap"], timeout_ms=20000,
                     doc="load_fw + the intelhex parser interpreted on a symbolic hex file; "
